@@ -164,7 +164,7 @@ def run(ctx):
     from .. import pipeline
 
     # wiring: the run's stored columns are this stage applied to the run's stored columns (see nssmc/pipeline.py)
-    pipeline.run_in(ctx, ['taus', 'decay'], ('A', 'B', 'C'), plots=['taus_density_beta', 'taus_histogram', 'taus_overview', 'taus_pexit'])
+    pipeline.run_in(ctx, ['taus', 'decay'], ('A', 'B', 'C', 'D'), plots=['taus_density_beta', 'taus_histogram', 'taus_overview', 'taus_pexit'])
     tier = ctx.tier
     emins = {}
     for v in (1, 2, 3):
